@@ -119,34 +119,34 @@ theorem parseCapability_err (o : UriOracle) (s : String) (e : Err) (h : parseCap
   · cases h; simp
   · cases h
 
-theorem capsLoop_good (o : UriOracle) (fuel : Nat) (endRaw : String) (acc : List Capability) (evs : List Ev) :
-    Good evs fuel (capsLoop o fuel endRaw acc evs) := by
-  fun_induction capsLoop o fuel endRaw acc evs <;> simp_all [Good] <;>
+theorem capsLoop_good (c : RCfg) (o : UriOracle) (fuel : Nat) (endRaw : String) (acc : List Capability) (evs : List Ev) :
+    Good evs fuel (capsLoop c o fuel endRaw acc evs) := by
+  fun_induction capsLoop c o fuel endRaw acc evs <;> simp_all [Good] <;>
     grind [→ readText_shorter, → readText_err, → parseCapability_err]
 
-theorem capsLoop_shorter (o : UriOracle) (fuel : Nat) (endRaw : String) (acc v : List Capability) (evs rest : List Ev)
-    (h : capsLoop o fuel endRaw acc evs = .ok (v, rest)) : rest.length < evs.length :=
-  (capsLoop_good o fuel endRaw acc evs).1 v rest h
+theorem capsLoop_shorter (c : RCfg) (o : UriOracle) (fuel : Nat) (endRaw : String) (acc v : List Capability) (evs rest : List Ev)
+    (h : capsLoop c o fuel endRaw acc evs = .ok (v, rest)) : rest.length < evs.length :=
+  (capsLoop_good c o fuel endRaw acc evs).1 v rest h
 
-theorem capsLoop_err (o : UriOracle) (fuel : Nat) (endRaw : String) (acc : List Capability) (evs : List Ev)
-    (h : capsLoop o fuel endRaw acc evs = .error .fuel) : fuel ≤ evs.length := by
-  have := (capsLoop_good o fuel endRaw acc evs).2
+theorem capsLoop_err (c : RCfg) (o : UriOracle) (fuel : Nat) (endRaw : String) (acc : List Capability) (evs : List Ev)
+    (h : capsLoop c o fuel endRaw acc evs = .error .fuel) : fuel ≤ evs.length := by
+  have := (capsLoop_good c o fuel endRaw acc evs).2
   grind
 
-theorem helloLoop_good (o : UriOracle) (fuel : Nat) (endRaw : String) (caps : Option (List Capability))
-    (sid : Option Nat) (evs : List Ev) : Good evs fuel (helloLoop o fuel endRaw caps sid evs) := by
-  fun_induction helloLoop o fuel endRaw caps sid evs <;> simp_all [Good] <;>
+theorem helloLoop_good (c : RCfg) (o : UriOracle) (fuel : Nat) (endRaw : String) (caps : Option (List Capability))
+    (sid : Option Nat) (evs : List Ev) : Good evs fuel (helloLoop c o fuel endRaw caps sid evs) := by
+  fun_induction helloLoop c o fuel endRaw caps sid evs <;> simp_all [Good] <;>
     grind [→ readText_shorter, → readText_err, → capsLoop_shorter, → capsLoop_err]
 
-theorem helloLoop_shorter (o : UriOracle) (fuel : Nat) (endRaw : String) (caps : Option (List Capability))
+theorem helloLoop_shorter (c : RCfg) (o : UriOracle) (fuel : Nat) (endRaw : String) (caps : Option (List Capability))
     (sid : Option Nat) (evs rest : List Ev) (v : Hello)
-    (h : helloLoop o fuel endRaw caps sid evs = .ok (v, rest)) : rest.length < evs.length :=
-  (helloLoop_good o fuel endRaw caps sid evs).1 v rest h
+    (h : helloLoop c o fuel endRaw caps sid evs = .ok (v, rest)) : rest.length < evs.length :=
+  (helloLoop_good c o fuel endRaw caps sid evs).1 v rest h
 
-theorem helloLoop_err (o : UriOracle) (fuel : Nat) (endRaw : String) (caps : Option (List Capability))
+theorem helloLoop_err (c : RCfg) (o : UriOracle) (fuel : Nat) (endRaw : String) (caps : Option (List Capability))
     (sid : Option Nat) (evs : List Ev)
-    (h : helloLoop o fuel endRaw caps sid evs = .error .fuel) : fuel ≤ evs.length := by
-  have := (helloLoop_good o fuel endRaw caps sid evs).2
+    (h : helloLoop c o fuel endRaw caps sid evs = .error .fuel) : fuel ≤ evs.length := by
+  have := (helloLoop_good c o fuel endRaw caps sid evs).2
   grind
 
 theorem fromXmlHello_total (c : RCfg) (o : UriOracle) (fuel : Nat) (this : Option Hello) (evs : List Ev)
